@@ -221,6 +221,8 @@ def lean_type(t):
     if t.startswith('Set:'):
         inner = lean_type(t[4:])
         return 'List ' + (f'({inner})' if ' ' in inner else inner)
+    if t == 'Dict:Str:Int':
+        return 'List (Str × Int)'
     if t.startswith('Pairs:'):
         inner = lean_type(t[6:])
         return f'List (Str × {"(" + inner + ")" if " " in inner else inner})'
@@ -337,6 +339,11 @@ TARGETS = [
     Target('prop.py', 'vPeriod', 'to_ical', 'vPeriod_to_ical', None,
            {'by_duration': ('by_duration', 'Int'), 'start': ('start', 'U:PyDDD'), 'end': ('end_', 'U:PyDDD'), 'duration': ('duration', 'TD')},
            {}, False, 'enc', None, None, 'Bytes'),
+    # wave 8: vDDDLists.to_ical (C11): the elements are opaque objects `DO`; `dt.to_ical()` of an element and `from_unicode` are
+    # parameters; the generator bound to a name is consumed by the join that follows
+    Target('prop.py', 'vDDDLists', 'to_ical', 'vDDDLists_to_ical', None, {'dts': ('dts', 'List:DO')},
+           {'dt.to_ical()': ('pexpr', 'elem_to_ical', ['dt'], 'Bytes'),
+            'from_unicode': ('fun', 'from_unicode', ['Bytes'], 'Bytes')}, False, 'enc', None, None, 'Bytes'),
     # ---- decoders
     Target('prop.py', 'vDate', 'from_ical', 'vDate_from_ical', None, {}, {}, False, 'dec', {'ical': 'Str'}),
     Target('prop.py', 'vTime', 'from_ical', 'vTime_from_ical', None, {}, {}, False, 'dec', {'ical': 'Str'}),
@@ -358,6 +365,9 @@ TARGETS = [
     Target('prop.py', 'vPeriod', 'from_ical', 'vPeriod_from_ical', None, {},
            {'vDDDTypes.from_ical': ('pfun', 'ddd_from_ical', ['Str'], 'U:PyDDD', {'timezone': 'None'})}, False, 'dec',
            {'ical': 'Str', 'timezone': 'None'}),
+    # wave 8: vDDDLists.from_ical (C11): `ical.split(',')`, every part through the regenerated vDDDTypes.from_ical
+    Target('prop.py', 'vDDDLists', 'from_ical', 'vDDDLists_from_ical', None, {}, {}, False, 'dec',
+           {'ical': 'Str', 'timezone': 'None'}, None, 'List:U:PyDDD', {'out': 'List:U:PyDDD'}),
     # ---- recurrence rules (C19): vRecur.parse_type / from_ical / to_ical.  The rule under construction is an opaque `R`
     # (a CaselessDict), a part class an opaque `F`, a part value an opaque `RV`; what is stored under a key is one value or
     # a sequence of them (the union `RVals`, told apart by `isinstance(vals, SEQUENCE_TYPES)`)
@@ -434,6 +444,24 @@ TARGETS = [
     Target('caselessdict.py', 'CaselessDict', 'sorted_items', 'cd_sorted_items', 'State:S', {},
            {'canonsort_items': ('fun', 'canonsort_items', ['S', 'ORD'], 'Pairs:V'),
             'self.canonical_order': ('expr', 'canonical_order', ['self'], 'ORD')}, False, 'cdmeta', {}, None, 'Pairs:V'),
+    # wave 8: update / __init__ / copy.  `*args` is a list of opaque objects `M` (a mapping, or an iterable of pairs), `**kwargs`
+    # one more; what is asked of them (`hasattr(mapping, 'items')`, `iter(mapping.items())`, the pairs an iteration yields - or
+    # the exception), `super().__init__(*args, **kwargs)`, `self.items()` (a snapshot), `super().__delitem__(key)`,
+    # `self[key] = value`, `super().copy()` and `type(self)(..)` are parameters
+    Target('caselessdict.py', 'CaselessDict', 'update', 'cd_update', 'State:S', {},
+           {"hasattr(mapping, 'items')": ('expr', 'has_items', ['mapping'], 'Bool'),
+            'iter(mapping.items())': ('expr', 'items_iter', ['mapping'], 'M'),
+            'for mapping': ('pexpr', 'pairs_of', ['mapping'], 'Pairs:V'),
+            'self[]=': ('setitem', 'set_item', 'Str', 'V')}, False, 'cdmeta', {'*args': 'List:M', '**kwargs': 'M'}, None, 'S'),
+    Target('caselessdict.py', 'CaselessDict', '__init__', 'cd_init', 'State:S', {},
+           {'super().__init__(*args, **kwargs)': ('selfstmt', 'super_init', ['args', 'kwargs']),
+            'self.items()': ('expr', 'items', ['self'], 'Pairs:V'),
+            'to_unicode': ('fun', 'to_unicode', ['Str'], 'Str'),
+            'super().__delitem__(key)': ('selfstmt', 'super_delitem', ['key']),
+            'self[]=': ('setitem', 'set_item', 'Str', 'V')}, False, 'cdmeta', {'*args': 'List:M', '**kwargs': 'M'}, None, 'S'),
+    Target('caselessdict.py', 'CaselessDict', 'copy', 'cd_copy', 'State:S', {},
+           {'type(self)': ('pfun', 'construct', ['S'], 'S', {}),
+            'super().copy()': ('expr', 'super_copy', ['self'], 'S')}, False, 'cdmeta', {}, None, 'S'),
     # vDDDTypes.__init__ (C02 / C11): the VALUE and TZID parameters derived from what is wrapped (the union `PyDDD`); the
     # `Parameters(..)` constants, `tzid_from_dt` and `self.params.update({'TZID': tzid})` are parameters
     Target('prop.py', 'vDDDTypes', '__init__', 'vDDDTypes_init', 'Fields', {'params': ('params', 'P'), 'dt': ('dt_', 'U:PyDDD')},
@@ -592,6 +620,9 @@ TARGETS = [
            {'Timezone.from_tzid': ('pfun', 'from_tzid', ['Str'], 'Comp', {'first_date': 'DT', 'last_date': 'DT'}),
             'self.add_component': ('mut', 'add_component', ['Comp'])}, False, 'tzuse',
            {'first_date': 'DT', 'last_date': 'DT'}, None, 'Comp'),
+    # ---- wave 8, canonsort_keys (C17): a dict comprehension over enumerate, filtered comprehensions, keyed stable sort
+    Target('caselessdict.py', None, 'canonsort_keys', 'canonsort_keys', None, {}, {}, False, 'cdsort',
+           {'keys': 'StrList', 'canonical_order': 'Opt:StrList'}, None, 'StrList'),
     # ---- the parse loop (C01 / C04 / C09): Component.from_ical.  Everything done with the opaque objects is a parameter
     Target('cal.py', 'Component', 'from_ical', 'Component_from_ical', None, {}, FROM_ICAL, False, 'parse',
            {'st': 'Str', 'multiple': 'Bool'}, None, 'Result:C', {'stack': 'List:C', 'comps': 'List:C'}),
@@ -1099,6 +1130,11 @@ class Fn:
         return V('', 'Tuple', None, [self.expr(e, env) for e in node.elts])
 
     def e_Subscript(self, node, env):
+        if isinstance(node.value, ast.Name) and node.value.id in env and env[node.value.id].type == 'Dict:Str:Int':
+            k = self.expr(node.slice, env)      # wave 8: `d[k]` of a dict from str to int: KeyError without the key
+            if k.type != 'Str':
+                self.fail(node, f'`{ast.unparse(node)[:40]}`: key of type {k.type}')
+            return self.hoist(node, f'pyDictGet {env[node.value.id].lean} {k.lean}', 'Int')
         if self.objself and isinstance(node.value, ast.Name) and node.value.id == 'self' and 'self[]' in self.t.externals \
                 and not isinstance(node.slice, ast.Slice):
             k, e = self.expr(node.slice, env), self.t.externals['self[]']
@@ -1198,6 +1234,20 @@ class Fn:
                     self.setelts.add(lean_type(elt.type).split()[-1].strip('()'))
                     return V(f'(pyDedup ({xs.lean}.map (fun {x} => {elt.lean})))', 'Set:' + elt.type, None)
         self.fail(node, f'set comprehension `{ast.unparse(node)[:50]}`')
+
+    def e_DictComp(self, node, env):
+        """wave 8: `{k: i for i, k in enumerate(xs)}` over a list of str: a dict from str to int (a later duplicate overwrites)"""
+        g = node.generators[0]
+        if len(node.generators) == 1 and not g.is_async and not g.ifs and isinstance(g.target, ast.Tuple) and len(g.target.elts) == 2 \
+                and all(isinstance(e, ast.Name) for e in g.target.elts) and g.target.elts[0].id != g.target.elts[1].id \
+                and isinstance(g.iter, ast.Call) and isinstance(g.iter.func, ast.Name) and g.iter.func.id == 'enumerate' \
+                and 'enumerate' not in self.modnames and 'enumerate' not in env and len(g.iter.args) == 1 and not g.iter.keywords \
+                and isinstance(node.key, ast.Name) and node.key.id == g.target.elts[1].id \
+                and isinstance(node.value, ast.Name) and node.value.id == g.target.elts[0].id:
+            xs = self.expr(g.iter.args[0], env)
+            if xs.type == 'StrList':
+                return V(f'(pyDictOfEnum {xs.lean})', 'Dict:Str:Int', None)
+        self.fail(node, f'dict comprehension `{ast.unparse(node)[:50]}` (only `{{k: i for i, k in enumerate(<list of str>)}}`)')
 
     def e_List(self, node, env):
         vals = [self.expr(e, env) for e in node.elts]
@@ -1401,6 +1451,8 @@ class Fn:
             if e is not None and e[0] == 'contains' and b.type == e[2]:     # `'KEY' in obj` on an opaque object
                 f = self.param(e[1], f'{lean_type(e[2])} → Str → Bool')
                 return V(f'({"!" if k == "NotIn" else ""}({f.lean} {b.lean} {a.lean}))', 'Bool', None)
+        if k in ('In', 'NotIn') and a.type == 'Str' and b.type == 'Dict:Str:Int':
+            return V(f'({neg}(pyDictHas {b.lean} {a.lean}))', 'Bool', None)
         if k in ('In', 'NotIn') and a.type == 'None' and b.type.startswith('Set:Opt:'):
             return V(f'({neg}({b.lean}.contains none))', 'Bool', None)
         if k in ('In', 'NotIn') and one(a) and b.type == 'Str':       # a one-character literal in a str
@@ -1417,6 +1469,13 @@ class Fn:
 
     def e_BoolOp(self, node, env):
         """value context: `a or b` / `a and b` return an operand"""
+        if isinstance(node.op, ast.Or) and len(node.values) == 2 and isinstance(node.values[1], ast.List) and not node.values[1].elts:
+            a = self.expr(node.values[0], env)      # wave 8: `x or []` on a list-or-None: None and the empty list give []
+            if a.type == 'Opt:StrList':
+                return V(f'(pyListOrEmpty {a.lean})', 'StrList', None)
+            if a.type == 'StrList':
+                return a
+            self.fail(node, f'`{ast.unparse(node)[:40]}` on a value of type {a.type}')
         vals = [self.expr(node.values[0], env)] + [self.lazily(self.expr, x, env) for x in node.values[1:]]
         if len({v.type for v in vals}) != 1:
             self.fail(node, 'and/or over operands of different types, used as a value')
@@ -1710,6 +1769,16 @@ class Fn:
         if len(node.generators) == 1 and not g.is_async and isinstance(g.target, ast.Name) and len(g.ifs) == 1 \
                 and isinstance(node.elt, ast.Name) and node.elt.id == g.target.id:
             c, xs = g.ifs[0], self.expr(g.iter, env)
+            if xs.type == 'StrList':        # wave 8: `[k for k in xs if C]`, C a test that cannot raise: a filter
+                x = lname(g.target.id)
+                keep, self.pre = self.pre, []
+                try:
+                    cond = self.lazily(self.test, c, dict(env, **{g.target.id: V(x, 'Str', None)}))
+                    inner = self.pre
+                finally:
+                    self.pre = keep
+                if not inner:
+                    return V(f'({xs.lean}.filter (fun {x} => {cond}))', 'StrList', None)
             if isinstance(c, ast.Call) and isinstance(c.func, ast.Attribute) and isinstance(c.func.value, ast.Name) \
                     and c.func.value.id == g.target.id and not c.args and not c.keywords:
                 ext = self.t.externals.get(c.func.attr)
@@ -2026,12 +2095,40 @@ class Fn:
             rest = [self.param(*p).lean for p in d.params[d.nargs:]]     # its parameters become ours
             lean = ' '.join([d.lean] + [a.lean for a in args] + rest)
             return self.hoist(node, lean, d.rtype) if d.monadic else V(f'({lean})', d.rtype, None)
+        if fn.id == 'sorted' and 'sorted' not in self.modnames and len(node.args) == 1 and len(node.keywords) == 1 \
+                and node.keywords[0].arg == 'key' and isinstance(node.keywords[0].value, ast.Lambda) \
+                and not isinstance(node.args[0], ast.Starred):
+            lam = node.keywords[0].value        # wave 8: `sorted(xs, key=lambda k: E)`, E an int: keys first, then a stable sort
+            la = lam.args
+            xs = self.expr(node.args[0], env)
+            if xs.type == 'StrList' and len(la.args) == 1 and not (la.defaults or la.vararg or la.kwarg or la.kwonlyargs or la.posonlyargs):
+                x = lname(la.args[0].arg)
+                keep, self.pre, lazy, self.lazy = self.pre, [], self.lazy, 0
+                try:
+                    elt = self.expr(lam.body, dict(env, **{la.args[0].arg: V(x, 'Str', None)}))
+                    inner = self.pre
+                finally:
+                    self.pre, self.lazy = keep, lazy
+                if elt.type != 'Int':
+                    self.fail(node, f'sorted(.., key=..) with a key of type {elt.type} (only int)')
+                body = f'pure {elt.lean}'
+                for ln in reversed(inner):
+                    m = re.fullmatch(r"let (\S+) : (.*?) ← (.*)", ln)
+                    body = f'({m.group(3)}) >>= fun ({m.group(1)} : {m.group(2)}) => {body}'
+                return self.hoist(node, f'pySortedByIntKeyM (fun {x} => {body}) {xs.lean}', 'StrList')
+            self.fail(node, f'`{ast.unparse(node)[:50]}` (only a list of str with a one-argument lambda)')
         if fn.id == 'sorted' and 'sorted' not in self.modnames and len(node.args) == 1 and not node.keywords \
                 and not isinstance(node.args[0], ast.Starred):
             v = self.expr(node.args[0], env)        # wave 8: of a set / list of str: the code-point order is total on distinct
             if v.type in ('Set:Str', 'StrList'):    # strings and equal strings cannot be told apart, so the result is determined
                 return V(f'(pySortedStr {v.lean})', 'StrList', None)
             self.fail(node, f'sorted() of a value of type {v.type} (only a set or list of str)')
+        if fn.id == 'list' and 'list' not in self.modnames and len(node.args) == 1 and not node.keywords \
+                and not isinstance(node.args[0], ast.Starred):
+            v = self.expr(node.args[0], env)        # wave 8: a new list with the same elements (values are immutable here)
+            if v.type.startswith('List:') or v.type == 'StrList':
+                return v
+            self.fail(node, f'list() of a value of type {v.type}')
         builtins = ('str', 'int', 'abs', 'len', 'date', 'time', 'datetime')
         if fn.id in builtins and self.modnames.get(fn.id, f'datetime.{fn.id}') != f'datetime.{fn.id}':
             self.fail(node, f'`{fn.id}` is rebound at module level ({self.modnames[fn.id]})')
@@ -2232,6 +2329,15 @@ class Fn:
             if not self.loopctx:
                 self.fail(s, f'{type(s).__name__} outside a loop')
             return self.loopctx[-1]['brk' if isinstance(s, ast.Break) else 'cont'](env)
+        if isinstance(s, ast.Assign) and len(s.targets) == 1 and isinstance(s.targets[0], ast.Name) and isinstance(s.value, ast.GeneratorExp) \
+                and rest and isinstance(rest[0], ast.Return) and isinstance(rest[0].value, ast.Call) \
+                and isinstance(rest[0].value.func, ast.Attribute) and rest[0].value.func.attr == 'join' and not rest[0].value.keywords \
+                and len(rest[0].value.args) == 1 and isinstance(rest[0].value.args[0], ast.Name) and rest[0].value.args[0].id == s.targets[0].id \
+                and sum(1 for n in ast.walk(self.func) if isinstance(n, ast.Name) and n.id == s.targets[0].id) == 2:
+            # wave 8: `g = (E for v in xs)` consumed only by the `return sep.join(g)` that follows: nothing runs in between, so
+            # the elements are produced exactly where the join asks for them
+            ret = ast.copy_location(ast.Return(value=ast.copy_location(ast.Call(func=rest[0].value.func, args=[s.value], keywords=[]), rest[0].value)), rest[0])
+            return self.block([ret] + rest[1:], env, tail)
         if isinstance(s, ast.For):
             return self.for_(s, rest, env, tail)
         if isinstance(s, ast.While):
@@ -2244,6 +2350,18 @@ class Fn:
             f = self.param(e[1], ' → '.join([lean_type(fld.type)] + [lean_type(a.type) for a in args] + [lean_type(fld.type)]))
             env, line = self.bind(env, 'self__' + e[2], V('(' + ' '.join([f.lean, fld.lean] + [a.lean for a in args]) + ')', fld.type, None))
             return self.take_pre() + [line] + self.block(rest, env, tail)
+        if isinstance(s, ast.Expr) and isinstance(s.value, ast.Call) and 'self' in env \
+                and self.t.externals.get(ast.unparse(s.value), ('',))[0] == 'selfstmt':
+            # wave 8: a whole call statement that changes `self` (`super().__init__(*args, **kwargs)`): a parameter from the
+            # state before and the named locals to the state after; it may raise
+            e = self.t.externals[ast.unparse(s.value)]
+            args = [self.expr(ast.parse(n, mode='eval').body, env) for n in e[2]]
+            obj = env['self']
+            f = self.param(e[1], ' → '.join([lean_type(obj.type)] + [lean_type(x.type) for x in args] + [f'Py {lean_type(obj.type)}']))
+            new = self.hoist(s, ' '.join([f.lean, obj.lean] + [x.lean for x in args]), obj.type)
+            lines = self.take_pre()
+            env, line = self.bind(env, 'self', new)
+            return lines + [line] + self.block(rest, env, tail)
         if isinstance(s, ast.Expr) and isinstance(s.value, ast.Call):
             callee = ast.unparse(s.value.func)
             e = self.t.externals.get(callee)
@@ -3048,6 +3166,12 @@ class Fn:
             itv = self.expr(it, env)
         if itv.type == 'Vals':      # iterating what `self[name]` gave: a TypeError unless it is a list
             itv = self.hoist(s, f'PyVals.elems {itv.lean}', 'ValList')
+        fe = self.t.externals.get('for ' + ast.unparse(it))
+        if fe is not None and fe[0] == 'pexpr' and not (itv.type in ITER or itv.type.startswith('List:') or itv.type.startswith('Pairs:')):
+            # wave 8: iterating an opaque object is a declared parameter: what it yields, or an exception
+            rt = lean_type(fe[3])
+            f = self.param(fe[1], f'{lean_type(itv.type)} → Py ({rt})')
+            itv = self.hoist(s, f'{f.lean} {itv.lean}', fe[3])
         if not (itv.type in ITER or itv.type.startswith('List:') or itv.type.startswith('Pairs:')) or s.orelse:
             self.fail(s, f'`for` over a value of type {itv.type}' if itv.type not in ITER else '`for .. else`')
         if cname in self.pairtarget and itv.type != 'ItemList' and not itv.type.startswith('Pairs:'):
@@ -3208,6 +3332,12 @@ class Fn:
                     for f in (d.fields or []) if d is not None else []:
                         if 'self__' + f not in asg:
                             asg.append('self__' + f)
+                if isinstance(n, ast.Call) and self.t.externals.get(ast.unparse(n), ('',))[0] == 'selfstmt' and 'self' in env and 'self' not in asg:
+                    asg.append('self')
+                if isinstance(n, ast.Assign) and len(n.targets) == 1 and isinstance(n.targets[0], ast.Subscript) \
+                        and isinstance(n.targets[0].value, ast.Name) and n.targets[0].value.id == 'self' and 'self' in env \
+                        and self.t.externals.get('self[]=', ('',))[0] == 'setitem' and 'self' not in asg:
+                    asg.append('self')      # wave 8: `self[k] = v` on a state changes it
                 if isinstance(n, ast.Call) and isinstance(n.func, ast.Attribute) and isinstance(n.func.value, ast.Name) \
                         and n.func.value.id in env and env[n.func.value.id].type.startswith('Set:') and n.func.value.id not in asg:
                     asg.append(n.func.value.id)        # wave 8: a method call on a set changes it
@@ -3289,8 +3419,14 @@ class Fn:
         if t.fn == '__new__' and decos == []:
             first = ['cls']       # an implicit static method whose first parameter is the class
         names = [x.arg for x in a.args]
-        if first is None or a.vararg or a.kwarg or a.kwonlyargs or a.posonlyargs or names != first + list(t.args or {}):
-            self.fail(self.func, f'signature ({", ".join(names)}) / decorators {decos} differ from the declared ones')
+        # wave 8: `*args` / `**kwargs` are accepted when the target declares them (`'*args'`, `'**kwargs'`) with a type
+        want_var = next((n[1:] for n in (t.args or {}) if n.startswith('*') and not n.startswith('**')), None)
+        want_kw = next((n[2:] for n in (t.args or {}) if n.startswith('**')), None)
+        plain = [n for n in (t.args or {}) if not n.startswith('*')]
+        if first is None or (a.vararg.arg if a.vararg else None) != want_var or (a.kwarg.arg if a.kwarg else None) != want_kw \
+                or a.kwonlyargs or a.posonlyargs or names != first + plain:
+            self.fail(self.func, f'signature ({", ".join(names)}' + (f', *{a.vararg.arg}' if a.vararg else '')
+                      + (f', **{a.kwarg.arg}' if a.kwarg else '') + f') / decorators {decos} differ from the declared ones')
         defaults = dict(zip(names[len(names) - len(a.defaults):], a.defaults))
         env = {}
         FIELD_LNAME.clear()
@@ -3321,6 +3457,7 @@ class Fn:
         if (t.self_type or '').startswith('State:'):     # the object itself is a value that the method changes and leaves
             env['self'] = self.param('self_', t.self_type[6:])
         for n, typ in (t.args or {}).items():
+            n = n.lstrip('*')
             if typ == 'Object':     # an object that is only used through attributes declared as parameters
                 continue
             if typ == 'None':       # specialised to the default, which must be None
@@ -3562,6 +3699,13 @@ HEADERS['tzuse'] = ['/- GENERATED by tools/py2lean.py (called from tools/extract
                     'import ICal.Model.PyRTTzUse', 'import ICal.Gen.BodiesSer', 'import ICal.Gen.BodiesWalk',
                     'set_option linter.unusedVariables false',
                     'namespace ICal.Gen.BodiesTzUse', 'open ICal ICal.PyRT', '']
+NAMESPACE['cdsort'] = 'ICal.Gen.BodiesCDictSort'
+HEADERS['cdsort'] = ['/- GENERATED by tools/py2lean.py (called from tools/extract.py) from canonsort_keys of src/icalendar/caselessdict.py.',
+                     '   Do not edit: regenerated on every run; lean/ICal/Lemmas/BodiesCDictSort.lean proves it equal to the hand-written',
+                     '   model (ICal/Model/CDict.lean: `canonsort`).  The dict comprehension, `k in d`, `d[k]` (KeyError), the keyed stable',
+                     '   `sorted` and `x or []` are the definitions of ICal/Model/PyRTDict.lean; `sorted` of str is the code-point order. -/',
+                     'import ICal.Model.PyRTDict', 'set_option linter.unusedVariables false',
+                     'namespace ICal.Gen.BodiesCDictSort', 'open ICal ICal.PyRT', '']
 GROUP_USES = {'tzuse': ['ser', 'walk']}      # groups whose translated functions this group calls (imported, qualified names)
 NAMESPACE['walk'] = 'ICal.Gen.BodiesWalk'
 HEADERS['walk'] = ['/- GENERATED by tools/py2lean.py (called from tools/extract.py) from Component._walk / walk of',
@@ -3668,7 +3812,7 @@ def translate(src_dir, group='enc', registry=None):
         sig = ''.join(f' ({p} : {lean_type(ty)})' for p, ty in fn.used)
         opaque = sorted({e[3] for e in t.externals.values() if isinstance(e[0], str) and e[0] in ('pfun', 'expr') and e[3] not in LEAN_TYPE and e[3] != 'Object' and ':' not in e[3]})
         opaque = sorted(set(opaque) | {o for o in ('AT',) if re.search(r'\b' + o + r'\b', sig)})
-        if group in ('parse', 'alarm', 'recur', 'add', 'cdmeta', 'tzuse') or t.lean == 'vMonth_new':
+        if group in ('parse', 'alarm', 'recur', 'add', 'cdmeta', 'tzuse') or t.lean in ('vMonth_new', 'vDDDLists_to_ical'):
             opaque = opaque_types([lean_type(ty) for _, ty in fn.used] + [fn.rtype_lean or lean_type(fn.rtype)])
         sig = ''.join(f' {{{o} : Type}}' for o in opaque) + ''.join(f' [BEq {o}]' for o in sorted(getattr(fn, 'setelts', ())) if o in opaque) + sig
         rt = fn.rtype_lean or lean_type(fn.rtype)
